@@ -68,10 +68,8 @@ func parseUsemtlLine(components []string) (string, error) {
 }
 
 func parseGroupLine(components []string) (string, error) {
-	if len(components) == 1 {
-		return "", errors.New("g line is empty")
-	}
-
+	// A bare "g" selects the unnamed group: WriteMeshes emits it for a mesh
+	// without a name, e.g. for faces that preceded the first "g" of a loaded file.
 	return strings.Join(components[1:], " "), nil
 }
 
